@@ -61,6 +61,13 @@ struct mfn
         T const y = p.coordinates()[0];
         return T(0.05L) + y * y * y;
     }
+    // the same integrand created with a distribution (another overload of make_multi_channel_integrand)
+    T operator()(hep::multi_channel_point<T> const& p, hep::projector<T>& proj) const
+    {
+        T const v = (*this)(p);
+        proj.add(0, p.coordinates()[0], v);
+        return v;
+    }
 };
 
 template <typename T>
@@ -198,8 +205,8 @@ static void vegas_case(report& r, std::string const& id, sz iters, int gridkind,
     r.state(res.size());
 }
 
-template <typename T>
-static void mc_case(report& r, std::string const& id, sz iters, int wkind, T beta, T minw, int mode)
+template <typename T, typename I>
+static void mc_case_with(report& r, std::string const& id, sz iters, int wkind, T beta, T minw, int mode, vf::pl_map<T> const& map, I integrand)
 {
     auto const& calls = g_calls_lists[iters - 1];
     using E = vf::script_engine;
@@ -209,8 +216,6 @@ static void mc_case(report& r, std::string const& id, sz iters, int wkind, T bet
     auto fresh = [&]() {
         return wkind == 0 ? hep::make_multi_channel_chkpt<T, E>(minw, beta, E()) : hep::make_multi_channel_chkpt<T, E>(user, minw, beta, E());
     };
-    vf::pl_map<T> map; map.split = {T(0.25), T(0.5), T(0.75)};
-    auto integrand = hep::make_multi_channel_integrand<T>(mfn<T>(), 1, map, 1, 3);
     LOG<T>().clear();
     r.eval();
     auto chk = fresh();
@@ -314,6 +319,14 @@ static void mc_case(report& r, std::string const& id, sz iters, int wkind, T bet
 }
 
 template <typename T>
+static void mc_case(report& r, std::string const& id, sz iters, int wkind, T beta, T minw, int mode, bool dist = false)
+{
+    vf::pl_map<T> map; map.split = {T(0.25), T(0.5), T(0.75)};
+    if (dist) mc_case_with<T>(r, id, iters, wkind, beta, minw, mode, map, hep::make_multi_channel_integrand<T>(mfn<T>(), 1, map, 1, 3, hep::make_dist_params<T>(2, T(0), T(1), "d")));
+    else mc_case_with<T>(r, id, iters, wkind, beta, minw, mode, map, hep::make_multi_channel_integrand<T>(mfn<T>(), 1, map, 1, 3));
+}
+
+template <typename T>
 static void for_type(report& r)
 {
     std::string const tn = vf::type_name<T>();
@@ -344,6 +357,8 @@ static void for_type(report& r)
                 if (!r.want(id)) continue;
                 mc_case<T>(r, id, iters, wk, beta, minw, mode);
                 if (iters > 1) r.distinct(vf::hash_str(id));
+                // the integrand created with a distribution (3 channels, 1 map dimension)
+                if (wk <= 1 && minw == T() && r.want(id + " dist")) { mc_case<T>(r, id + " dist", iters, wk, beta, minw, mode, true); r.distinct(vf::hash_str(id + " dist")); }
             }
         }
     }
